@@ -557,6 +557,48 @@ def check_epoll(ctx, mexe, mism, fails, dist, samples):
 
 
 # ---------------------------------------------------------------------------------------------------------
+# trace replay: harness c11_trace.c records what a real process does; props/c11_trace.py replays it through the model
+
+def check_trace(ctx, mexe, mism, fails, dist, samples):
+    from props import c11_trace
+    exe, msg = common.build_harness("c11_trace", ["c11_trace.c"], whitebox=True, exclude_objs=("event.c.o",))
+    if exe is None:
+        mism.append({"what": "trace harness build failed (white-box include of src/event/event.c in a full process)", "detail": msg[-1500:]})
+        return 0
+    runs = 2 if ctx.tier == "quick" else 25
+    tot, done = {}, 0
+    for _ in range(runs):
+        sd = ctx.rng.next() % (1 << 62)
+        r = common.run([exe, str(sd)], timeout=120)
+        lines = r.stdout.split("\n")
+        if r.returncode != 0 or not any(l.startswith("END") and l.endswith("ok") for l in lines):
+            mism.append({"what": "trace recorder did not finish", "detail": {"seed": sd, "rc": r.returncode, "tail": lines[-3:], "err": (r.stderr or "")[-400:]}})
+            continue
+        log = [tuple(int(x) for x in l.split()) for l in lines if l and l[0].isdigit()]
+        rep = {}
+        try:
+            probs = c11_trace.replay(mexe, log, rep)
+        except Exception as e:  # noqa
+            import traceback
+            mism.append({"what": "trace replay crashed", "detail": traceback.format_exc()[-1500:]})
+            continue
+        for k, v in rep.items():
+            if isinstance(v, int):
+                tot[k] = tot.get(k, 0) + v
+        if "aborted" in rep:
+            tot["traces_cut_short_by_a_cross_thread_race"] = tot.get("traces_cut_short_by_a_cross_thread_race", 0) + 1
+        for pb in probs[:6]:
+            mism.append({"what": "recorded run of the library does not replay through Model/TimerRun.v under the guards of the system theorems: "
+                                 + pb["what"], "detail": {"seed": sd, "key": pb["key"]}})
+        done += 1
+    for k, v in tot.items():
+        dist["trace_" + k] = v
+    dist["trace_runs"] = done
+    samples.append({"trace_replay_totals": tot})
+    return tot.get("passes", 0) + tot.get("resume", 0) + tot.get("latch", 0) + tot.get("configure", 0)
+
+
+# ---------------------------------------------------------------------------------------------------------
 # state machine sequences (valid usage of the unote functions)
 
 ITVS = [1, 2, 3, 7, 10, 1000, I63 - 1, I63, UINT64_MAX]
@@ -948,6 +990,8 @@ def correspond(ctx):
     evals += check_cfg(ctx, mexe, mism, fails, dist, samples)
     # 4c. kernel side of the timers (src/event/event_epoll.c)
     evals += check_epoll(ctx, mexe, mism, fails, dist, samples)
+    # 4d. recorded runs of the whole library replayed through the model (callers' guards, manager thread discipline)
+    evals += check_trace(ctx, mexe, mism, fails, dist, samples)
     # 5. end-to-end oracle through the public API (real time; deadlines read back on the clock they were expressed in)
     e2e, m5 = common.build_harness("c11_e2e", ["c11_e2e.c"], whitebox=False)
     if e2e is None:
